@@ -115,6 +115,7 @@ class SVEval:
                 env[nm] = (bind or {}).get(nm, self._default_param(nm, p.get("ty") or ""))
         self._self_methods = self_methods
         self._depth = depth
+        self._ret_opt = re.sub(r"\s+", "", (fn.sig.get("ret") or "")).startswith(("Option<", "std::option::Option<"))
         outs = self.exec_block(fn.body or [], [Outcome([], env)])
         res = []
         for o in outs:
@@ -133,6 +134,13 @@ class SVEval:
     # ------------------------------------------------------------ blocks / statements
     def exec_block(self, stmts, states):
         """-> list[Outcome]; value of the block is the last expression without semicolon"""
+        self._fn_depth = getattr(self, "_fn_depth", -1) + 1
+        try:
+            return self._exec_block(stmts, states)
+        finally:
+            self._fn_depth -= 1
+
+    def _exec_block(self, stmts, states):
         cur = states
         for i, st in enumerate(stmts):
             nxt = []
@@ -155,6 +163,10 @@ class SVEval:
             if init is None:
                 return [Outcome(o.conds, dict(o.env))]
             outs = []
+            pat0 = st["pat"]["pat"] if st["pat"].get("k") == "typed" else st["pat"]
+            if st.get("else") is not None and pat0.get("k") == "tstruct" and "::".join(pat0.get("path", [])) == "Some" and self.is_optionish(init) \
+                    and not (init.get("k") == "mcall" and init["method"] == "get"):
+                return self.bind_let(st, o.conds, dict(o.env), None, init)      # evaluated case by case there
             for (c2, v, ret, env2) in self.eval(init, o):
                 if ret:
                     outs.append(Outcome(o.conds + c2, env2, v, True))
@@ -165,7 +177,8 @@ class SVEval:
         if k == "expr":
             e = st["e"]
             outs = []
-            for (c2, v, ret, env2) in self.eval(e, o, stmt=not (last and not st.get("semi"))):
+            tail_opt = last and not st.get("semi") and getattr(self, "_ret_opt", False) and getattr(self, "_fn_depth", 0) == 0 and e.get("k") in ("mcall", "path", "field", "call")
+            for (c2, v, ret, env2) in (self.eval_opt(e, o) if tail_opt else self.eval(e, o, stmt=not (last and not st.get("semi")))):
                 if ret:
                     outs.append(Outcome(o.conds + c2, env2, v, True))
                 elif last and not st.get("semi"):
@@ -185,6 +198,22 @@ class SVEval:
         if pk == "ident":
             env[pat["name"]] = v
             return [Outcome(conds, env)]
+        if pk == "tstruct" and "::".join(pat["path"]) == "Some" and st.get("else") is not None and self.is_optionish(init) \
+                and not (init.get("k") == "mcall" and init["method"] == "get"):
+            outs = []
+            for (c, v2, r, en) in self.eval_opt(init, Outcome(conds, env)):
+                if r:
+                    outs.append(Outcome(conds + c, en, v2, True))
+                elif v2[0] == "opt":
+                    okenv = dict(en)
+                    for b in pat_bindings(pat):
+                        okenv[b] = v2[1]
+                    outs.append(Outcome(conds + c, okenv))
+                else:
+                    for (c3, v3, ret3, env3) in self.eval(st["else"], Outcome(conds + c, en)):
+                        if ret3:
+                            outs.append(Outcome(conds + c + c3, env3, v3, True))
+            return outs
         if pk == "tstruct" and "::".join(pat["path"]) in ("Some", "Ok") and st.get("else") is not None:
             # let Some(x) = e else { diverge }
             t = expr_text(init)
@@ -271,10 +300,131 @@ class SVEval:
         if k == "closure":
             return [([], ("closure", e), False, env)]
         if k == "try":
+            if getattr(self, "_ret_opt", False):
+                # `x?` in a function returning Option: the payload, or an early `return None`
+                outs = []
+                for (c, v, r, en) in self.eval_opt(e["expr"], o):
+                    if r:
+                        outs.append((c, v, True, en))
+                    elif v[0] == "none":
+                        outs.append((c, ("none",), True, en))
+                    else:
+                        outs.append((c, v[1], False, en))
+                return outs[:MAX_PATHS]
             return self.eval(e["expr"], o)
         if k in ("binary", "cast", "index", "range", "struct", "array", "for", "while", "loop", "letcond"):
             return [([], ("opaque", expr_text(e)), False, env)]
         return [([], ("opaque", expr_text(e)), False, env)]
+
+    # ------------------------------------------------------------ Option algebra
+    OPT_COMBINATORS = ("and_then", "map", "cloned", "copied", "as_ref", "as_deref", "as_mut", "or_else", "filter", "get", "ok")
+
+    def is_optionish(self, e):
+        """an expression built from Option combinators (…get(k) / .and_then(|x| ..) / .map(|x| ..) / .cloned() …), or a call of an own method
+        that returns Option: evaluated case by case instead of as an opaque call"""
+        while isinstance(e, dict) and e.get("k") in ("paren", "ref"):
+            e = e["expr"]
+        if not isinstance(e, dict) or e.get("k") != "mcall":
+            return False
+        m = e["method"]
+        if m in ("and_then", "map") and e["args"] and e["args"][0].get("k") == "closure":
+            r = e["recv"]
+            # only Option receivers: an iterator `.map(..)` keeps its old meaning
+            return self.is_optionish(r) or (r.get("k") == "mcall" and r["method"] in ("get_config", "get", "first", "last", "as_ref", "as_deref")) or self._returns_option(r)
+        if m in ("cloned", "copied", "as_ref", "as_deref", "as_mut"):
+            return self.is_optionish(e["recv"])
+        if m == "get" and len(e["args"]) == 1:
+            return True
+        return self._returns_option(e)
+
+    def _returns_option(self, e):
+        if not (isinstance(e, dict) and e.get("k") == "mcall" and expr_text(e["recv"]) == "self" and self._self_methods is not None):
+            return False
+        t = self._self_methods(e["method"])
+        return t is not None and t.body is not None and re.sub(r"\s+", "", (t.sig.get("ret") or "")).startswith(("Option<", "std::option::Option<"))
+
+    def eval_opt(self, e, o):
+        """evaluate an Option-valued expression case by case: -> list of (conds, ("opt", sv) | ("none",), returned, env)"""
+        env = o.env
+        while isinstance(e, dict) and e.get("k") in ("paren", "ref"):
+            e = e["expr"]
+        k = e.get("k")
+        if k == "path" and len(e["segs"]) == 1 and e["segs"][0] in env and env[e["segs"][0]] is not None and env[e["segs"][0]][0] in ("opt", "none"):
+            return [([], env[e["segs"][0]], False, env)]
+        if k == "path" and e["segs"] == ["None"]:
+            return [([], ("none",), False, env)]
+        if k == "call" and expr_text(e["func"]) == "Some" and e["args"]:
+            return [(c, ("opt", v), r, en) for (c, v, r, en) in self.eval(e["args"][0], o)]
+        if k == "mcall":
+            m = e["method"]
+            recv = e["recv"]
+            if m in ("cloned", "copied", "as_ref", "as_deref", "as_mut") and not e["args"]:
+                return self.eval_opt(recv, o)
+            if m == "get" and len(e["args"]) == 1:
+                t = expr_text(e)
+                table = expr_text(recv)
+                keys = [x for (_, x, _, _) in self.eval(e["args"][0], Outcome([], env))]
+                hit = ("maphit", table, keys[0] if keys else ("opaque", "key"))
+                return [(["if-let Some(hit) = " + t], ("opt", hit), False, env), (["not(if-let Some(hit) = " + t + ")"], ("none",), False, env)]
+            if m in ("and_then", "map") and e["args"] and e["args"][0].get("k") == "closure":
+                clo = e["args"][0]
+                params = [b for p in clo["params"] for b in pat_bindings(p)]
+                outs = []
+                for (c, v, r, en) in self.eval_opt(recv, o):
+                    if r or v[0] == "none":
+                        outs.append((c, v, r, en))
+                        continue
+                    cenv = dict(en)
+                    for b in params:
+                        cenv[b] = v[1]
+                    inner = Outcome(o.conds + c, cenv)
+                    if m == "and_then":
+                        for (c2, v2, r2, en2) in self.eval_opt(clo["body"], inner):
+                            outs.append((c + c2, v2, False, en))
+                    else:
+                        for (c2, v2, r2, en2) in self.eval(clo["body"], inner):
+                            outs.append((c + c2, ("opt", v2), False, en))
+                return outs[:MAX_PATHS]
+            if self._returns_option(e) and self._depth < 8:
+                target = self._self_methods(m)
+                args = [self.first(a, o) for a in e["args"]]
+                bind = {}
+                pnames = [b for p in target.sig["params"] if not p.get("self") for b in pat_bindings(p["pat"])]
+                for nm, av in zip(pnames, args):
+                    bind[nm] = av
+                sub = SVEval(self.S)
+                outs = []
+                for (cs, v) in sub.fn_paths(target, bind, self._self_methods, self._depth + 1):
+                    cs2 = ["%s: %s" % (m, c) for c in cs]
+                    if v is not None and v[0] in ("opt", "none"):
+                        outs.append((cs2, v, False, env))
+                    elif v is not None and v[0] == "maphit":
+                        outs.append((cs2, ("opt", v), False, env))
+                    else:
+                        t = "%s: %s" % (m, render(v) if v is not None else "?")
+                        outs.append((cs2 + [t + " is Some"], ("opt", v if v is not None else ("opaque", m)), False, env))
+                        outs.append((cs2 + [t + " is None"], ("none",), False, env))
+                return outs[:MAX_PATHS] or [([], ("opt", ("opaque", m)), False, env)]
+        if k == "field" or k == "mcall" or k == "path" or k == "call":
+            # an Option we know nothing about: both cases, named after the expression
+            t = expr_text(e)
+            vals = self.eval(e, o)
+            v0 = vals[0][1] if vals else ("var", t)
+            if v0 is not None and v0[0] in ("opt", "none"):
+                return [(c, v, r, en) for (c, v, r, en) in vals]
+            pv = v0 if (v0 is not None and v0[0] in ("var", "maphit")) else ("var", t)
+            return [([t + " is Some"], ("opt", pv), False, env), ([t + " is None"], ("none",), False, env)]
+        if k == "block":
+            outs = []
+            for x in self.exec_block(e["stmts"], [Outcome([], dict(env))]):
+                v = x.value
+                if v is not None and v[0] in ("opt", "none"):
+                    outs.append((x.conds, v, x.returned, x.env))
+                else:
+                    outs.append((x.conds, ("opt", v if v is not None else ("opaque", "block")), x.returned, x.env))
+            return outs
+        t = expr_text(e)
+        return [([t + " is Some"], ("opt", ("var", t)), False, env), ([t + " is None"], ("none",), False, env)]
 
     def first(self, e, o):
         r = self.eval(e, o)
@@ -323,6 +473,25 @@ class SVEval:
         env = o.env
         cond = e["cond"]
         outs = []
+        if cond.get("k") == "letcond" and cond["pat"].get("k") == "tstruct" and "::".join(cond["pat"].get("path", [])) == "Some" \
+                and self.is_optionish(cond["expr"]) and not (cond["expr"].get("k") == "mcall" and cond["expr"]["method"] == "get"):
+            # the subject is evaluated case by case: `if let Some(x) = self.lookup(k)` / `= a.and_then(..)`
+            binds = pat_bindings(cond["pat"])
+            for (c, v, r, en) in self.eval_opt(cond["expr"], o):
+                if r:
+                    outs.append((c, v, r, en))
+                elif v[0] == "opt":
+                    then_env = dict(en)
+                    for b in binds:
+                        then_env[b] = v[1]
+                    for x in self.exec_block(e["then"], [Outcome([], then_env)]):
+                        outs.append((c + x.conds, x.value, x.returned, self.merge_env(env, x.env, then_env)))
+                elif e.get("else") is not None:
+                    for (c2, v2, r2, en2) in self.eval(e["else"], Outcome(o.conds + c, dict(en))):
+                        outs.append((c + c2, v2, r2, en2))
+                else:
+                    outs.append((c, None, False, en))
+            return outs[:MAX_PATHS]
         if cond.get("k") == "letcond":
             t = "%s = %s" % (pat_text(cond["pat"]), expr_text(cond["expr"]))
             then_env = dict(env)
@@ -376,6 +545,25 @@ class SVEval:
     def eval_match(self, e, o):
         env = o.env
         subj = e["expr"]
+        if self.is_optionish(subj) and not (subj.get("k") == "mcall" and subj["method"] == "get") and e["arms"] and all(
+                (a["pat"].get("k") == "tstruct" and "::".join(a["pat"].get("path", [])) == "Some") or pat_text(a["pat"]).strip() in ("None", "_") for a in e["arms"]):
+            outs = []
+            for (c, v, r, en) in self.eval_opt(subj, o):
+                if r:
+                    outs.append((c, v, r, en))
+                    continue
+                for arm in e["arms"]:
+                    is_some = arm["pat"].get("k") == "tstruct"
+                    wild = pat_text(arm["pat"]).strip() == "_"
+                    if (v[0] == "opt" and (is_some or wild)) or (v[0] == "none" and not is_some):
+                        aenv = dict(en)
+                        if is_some and v[0] == "opt":
+                            for b in pat_bindings(arm["pat"]):
+                                aenv[b] = v[1]
+                        for (c2, v2, r2, en2) in self.eval(arm["body"], Outcome(o.conds + c, aenv)):
+                            outs.append((c + c2, v2, r2, self.merge_env(env, en2, aenv)))
+                        break
+            return outs[:MAX_PATHS]
         st = expr_text(subj)
         sv_subj = self.first(subj, o)
         outs = []
@@ -468,8 +656,23 @@ class SVEval:
             return [([], ("iter", v[1] if v and v[0] in ("sub", "var") else rt, is_sub), False, env)]
         if m == "get" and len(e["args"]) == 1:
             return [([], ("opaque", expr_text(e)), False, env)]
+        if m in ("unwrap_or", "unwrap_or_else") and e["args"] and self.is_optionish(recv):
+            outs = []
+            dflt = e["args"][0]
+            for (c, v, r, en) in self.eval_opt(recv, o):
+                if r:
+                    outs.append((c, v, r, en))
+                elif v[0] == "opt":
+                    outs.append((c, v[1], False, en))
+                else:
+                    body = dflt["body"] if dflt.get("k") == "closure" else dflt
+                    for (c2, v2, r2, en2) in self.eval(body, Outcome(o.conds + c, dict(en))):
+                        outs.append((c + c2, v2, r2, en))
+            return outs[:MAX_PATHS]
         if m in ("unwrap_or", "unwrap_or_default", "unwrap", "expect", "unwrap_or_else"):
             return self.eval(recv, o)
+        if self.is_optionish(e) and m != "get":
+            return [(c, v, r, en) for (c, v, r, en) in self.eval_opt(e, o)]
         if m == "replace" and len(e["args"]) == 2:
             inner = self.first(recv, o)
             a = e["args"][0]
